@@ -285,6 +285,9 @@ pub fn c09(tier: Tier) -> i32 {
     // a tower whose slots per subscription are so many that the second renewal hits the cap (u32): the
     // refused renewal must leave the promised heights alone
     cfgs.push(cfg(1 << 31, 2, 1));
+    // a tower whose subscriptions are so long that the second renewal reaches the end of the height range (the expiry
+    // stays there): expiry + grace is then beyond any height, the user must not be purged
+    cfgs.push(cfg(1, 2_000_000_000, 6));
     let mut models = Vec::new();
     for c in cfgs {
         let mut a = Alphabet::basic();
